@@ -1021,7 +1021,6 @@ func runWal(args []string) {
 	}
 }
 
-
 // walFsyncs is the number of fdatasync calls the wal package has made so far: the sample count of its own histogram
 // etcd_disk_wal_fsync_duration_seconds (wal.sync and the file pipeline observe it around every fileutil.Fdatasync).  The harness
 // OBSERVES the sync points with it instead of assuming raft.MustSync was honoured (seeded change C16-mustsync-after-savestate: the
